@@ -7,10 +7,21 @@
 (*   accepted iff every channel equals Rect(kind, fmt, x) exactly          *)
 (*   (whenever the negated amplitude is representable: the property's      *)
 (*   domain; outside it nothing is required).                              *)
-(* comp "env": {"cfg":{fmt,ch,det,n,attack,release,via}, "o":{ga,gr}}      *)
+(* comp "env": {"cfg":{fmt,ch,det,n,attack,release,nza,nzr,via,srclen},    *)
+(*              "o":{ga,gr}}                                               *)
 (*   det in full|pos|neg (peak) or rms (window n); times in quarter frames *)
-(*   events env_next{a:{x}, o:{det}} -> r.v ; env_set{a:{which,tq}, o:{hint}}*)
+(*   events env_next{a:{x}, o:{det}} -> r.v ;                              *)
+(*          env_set{a:{which,tq,nz}, o:{hint}}                             *)
 (*   (env_sig_* = the same through the signal adaptor).                    *)
+(*   nza / nzr / nz = 1: the zero time was handed over as IEEE negative    *)
+(*   zero (-0.0 = 0, -0.0 >= 0: inside "attack and release times >= 0").   *)
+(*   It is the time 0 to the model: gain 0, envelope = detected value.     *)
+(*   srclen >= 0 (adaptor runs): the source signal ends after srclen       *)
+(*   frames; the later env_sig_next calls read past its end and their      *)
+(*   logged input x is the equilibrium frame such a signal yields.  The    *)
+(*   model needs no case for it: the recurrence keeps running on that      *)
+(*   input (the release tail), which is what the property demands of every *)
+(*   input history.  srclen = -1: the source is never read past its end.   *)
 (*   ga / gr / hint are the harness's own exp(-1/frames) in f32: a HINT    *)
 (*   that is used as the gain only after GainOK has verified it.           *)
 (*   Accepted iff the logged detected value is the rectified input (or an  *)
@@ -58,6 +69,8 @@ EnvResetOK(c) ==
   /\ c.fmt \in AllFormats /\ c.ch >= 1 /\ c.det \in {"full", "pos", "neg", "rms"}
   /\ c.via \in {"direct", "signal"} /\ (c.det = "rms" => c.n >= 1)
   /\ c.attack >= 0 /\ c.release >= 0
+  /\ c.nza \in {0, 1} /\ c.nzr \in {0, 1} /\ (c.nza = 1 => c.attack = 0) /\ (c.nzr = 1 => c.release = 0)
+  /\ c.srclen >= -1 /\ (c.srclen >= 0 => c.via = "signal")
   /\ Ev.r.k = "unit" /\ Ev.o.ok
   /\ HintOK(c.attack, Ev.o.ga) /\ HintOK(c.release, Ev.o.gr)
 
@@ -81,6 +94,7 @@ NextOK(c, rsn) ==
   /\ DetOK(c, x, d, rsn)
   /\ OutOK(c, d, Ev.r.v)
 SetOK == /\ Ev.a.which \in {"attack", "release"} /\ Ev.a.tq >= 0
+         /\ Ev.a.nz \in {0, 1} /\ (Ev.a.nz = 1 => Ev.a.tq = 0)      \* -0.0 is the time 0
          /\ Ev.r.k = "unit" /\ HintOK(Ev.a.tq, Ev.o.hint)
 
 IsNext == Ev.ev = (IF cf.via = "signal" THEN "env_sig_next" ELSE "env_next")
